@@ -4,7 +4,8 @@
 From CNV Require Import Base.Prelude Base.Str Base.QNum Model.Chromsort Model.Center Model.Sex
   Model.Reference Spec.Biweight Spec.Reference
   Proofs.ChromsortLemmas Proofs.ReferenceGc Proofs.ReferenceFlat Proofs.ReferenceBins
-  Proofs.ReferenceBiweight Proofs.ReferenceEstimator Proofs.ReferenceCentre Proofs.ReferenceCohort.
+  Proofs.ReferenceBiweight Proofs.ReferenceEstimator Proofs.ReferenceCentre Proofs.ReferenceCohort
+  Proofs.QNumLemmas Proofs.FnReference Gen.FnReference Gen.FnReferenceGc Gen.FnCnaryFlat.
 From Coq Require Import Qabs.
 Local Open Scope Q_scope.
 
@@ -83,6 +84,19 @@ Theorem C05_estimator_sample : forall hap build sexes skip bins i s d,
     (chr_x_filter bins build (nth i bins d)) (chr_y_filter bins build (nth i bins d))
     (b_log2 (nth i (center_all median true skip build (s_bins s)) d)).
 Proof. exact sample_value_spec. Qed.
+
+(* the depth column (summarize_info: depth_centers): the same location estimator over the depths the files of the
+   row's block hold at its bin, in sample-id order -- as many values as files, the flat pseudo-sample does NOT enter;
+   with one file it is that file's depth.  (s_depth: the depth column, or 2^log2 where a file has none.) *)
+Theorem C05_estimator_depth : forall hap build sexes targets antis rows r,
+  pool hap build sexes targets antis = ROk rows -> In r rows ->
+  exists skip files i,
+    ((skip = true /\ files = targets) \/ (skip = false /\ files = antis /\ antis <> [])) /\
+    files <> [] /\ (i < length (block_bins files))%nat /\
+    (forall d, ref_key r = key_of (nth i (block_bins files) d)) /\
+    length (depth_column files i) = length files /\
+    r_depth r == consensus_depth (depth_column files i).
+Proof. exact pool_row_depth. Qed.
 
 (* the two literals of the code are the doubles next to 1/1000 and 1.4826 *)
 Theorem C05_literals :
@@ -167,6 +181,60 @@ Theorem C05_sex_levels_y : forall hap build sexes skip files,
      consensus_spread_sq (block_column hap build sexes skip files i) == 0).
 Proof. exact sex_levels_y. Qed.
 
+(* Beyond "baseline = autosomal centre".  (1) A block of males only keeps the Y bin's own baseline a (relative to
+   the autosomal centre) one copy below it -- a - 1 -- as an X bin does under a male reference. *)
+Theorem C05_sex_levels_y_males : forall hap build sexes skip files,
+  files <> [] ->
+  forall base,
+  existsb is_auto_bin base = true ->
+  (forall s, In s files -> exists d, centred_like build base s d) ->
+  (skip = true ->
+     (forall b, In b base -> is_low b = false) /\
+     (forall s, In s files -> forall b, In b (s_bins s) -> is_low b = false)) ->
+  (forall s, In s files -> exists d, centred_like build base s d /\ sexed_like build sexes base s d) ->
+  forall i d0,
+  (forall s, In s files -> sample_is_xx sexes (s_id s) = false) ->
+  (i < length base)%nat -> chr_y_filter base build (nth i base d0) = true ->
+  exists c, center_shift median true skip build base = Some c /\
+    let a := b_log2 (nth i base d0) + c in
+    (a == 0 \/ (eps_1e3 <= Qabs a /\ (2 <= length files)%nat) ->
+     consensus_log2 (block_column hap build sexes skip files i) == a - 1 /\
+     consensus_spread_sq (block_column hap build sexes skip files i) == 0).
+Proof. exact sex_levels_y_males. Qed.
+
+(* (2) A block of females only puts every Y bin at -1 with spread 0, whatever its baseline and whatever the files
+   show there (nothing is assumed about their Y values). *)
+Theorem C05_sex_levels_y_females : forall hap build sexes skip files,
+  files <> [] ->
+  forall base,
+  (forall s, In s files -> exists d, centred_like build base s d) ->
+  forall i d0,
+  (forall s, In s files -> sample_is_xx sexes (s_id s) = true) ->
+  (i < length base)%nat -> chr_y_filter base build (nth i base d0) = true ->
+  consensus_log2 (block_column hap build sexes skip files i) == -1 /\
+  consensus_spread_sq (block_column hap build sexes skip files i) == 0.
+Proof. exact sex_levels_y_females. Qed.
+
+(* (3) Sharp: with both sexes in a block and a Y baseline off the autosomal centre, C05_sex_levels_y does not extend.
+   Two males and a female over chr1, chr2, chrX, chrY with the Y bin's baseline 1/2 above the autosomes meet every
+   hypothesis of C05_sex_levels_y except the baseline one (the profile's shift is 0); the column of the Y bin is
+   -1 (flat), -1 (female, set), -1/2, -1/2 (males), its biweight location the midpoint -3/4 -- neither -1 nor the
+   males' 1/2 - 1 -- and its spread is not 0. *)
+Theorem C05_sex_levels_y_mixed_hypotheses :
+  ymix_files <> [] /\ existsb is_auto_bin ymix_base = true /\
+  (forall s, In s ymix_files -> forall b, In b (s_bins s) -> is_low b = false) /\
+  (forall b, In b ymix_base -> is_low b = false) /\
+  (forall s, In s ymix_files -> centred_like None ymix_base s 0 /\ sexed_like None ymix_sexes ymix_base s 0) /\
+  chr_y_filter ymix_base None (nth 3 ymix_base (mkBin "" 0 0 "" 0 None None)) = true /\
+  center_shift median true true None ymix_base = Some 0.
+Proof. exact ymix_hypotheses. Qed.
+
+Theorem C05_sex_levels_y_mixed_refuted :
+  consensus_log2 (block_column false None ymix_sexes true ymix_files 3) == -3 # 4 /\
+  ~ consensus_log2 (block_column false None ymix_sexes true ymix_files 3) == -1 /\
+  ~ consensus_spread_sq (block_column false None ymix_sexes true ymix_files 3) == 0.
+Proof. exact sex_levels_y_mixed_refuted. Qed.
+
 (* ---- C05_flat ------------------------------------------------------------------------------------------------ *)
 (* outside the open finding's situation (male reference AND a PAR build AND a bin inside PAR-Y) *)
 Theorem C05_flat : forall exp2 hap build T A r,
@@ -206,6 +274,30 @@ Theorem C05_gc_rmask_bases : forall (s : list ascii) start stop i d,
   (0 <= start)%Z -> (i < Z.to_nat (stop - start))%nat ->
   nth i (bases_of s start stop) d = nth (Z.to_nat start + i) s d.
 Proof. exact (@bases_of_nth ascii). Qed.
+
+(* the gc / rmask columns of the POOLED reference (Model/Reference.v pool_gc: load_sample_block's ref_columns and
+   combine_probes' concatenation).  With a FASTA: gc -- when do_gc -- is the G+C fraction of the unambiguous bases of
+   the bin's own sequence, for target and antitarget bins alike; rmask -- when do_rmask -- is the lowercase fraction,
+   for the antitarget bins only: the target block is loaded with fix_rmask=False, so target bins hold NaN (None). *)
+Theorem C05_pooled_gc_rmask : forall seq_of do_gc do_rmask tbins abins tgc agc r,
+  In r (snd (pool_gc (Some seq_of) do_gc do_rmask tbins abins tgc agc)) ->
+  In (g_bin r) (tbins ++ abins) /\
+  (if do_gc then exists g, g_gc r = Some g /\ g == gc_fraction (bin_seq seq_of (g_bin r)) else g_gc r = None) /\
+  match g_rmask r with
+  | Some m => do_rmask = true /\ In (g_bin r) abins /\ m == rmask_fraction (bin_seq seq_of (g_bin r))
+  | None => do_rmask = false \/ In (g_bin r) tbins
+  end.
+Proof. exact pool_gc_fasta. Qed.
+
+(* Without a FASTA there is no rmask column, and the gc column of each block is taken over, row for row, from the gc
+   column of the block's first file by sample id (import-picard files), when do_gc and that file has one. *)
+Theorem C05_pooled_gc_first_file : forall do_gc do_rmask tbins abins tgc agc,
+  snd (pool_gc None do_gc do_rmask tbins abins tgc agc) =
+  sort_regions (fun r => bin_proj (g_bin r))
+    (gc_rows tbins (if do_gc then tgc else None) None ++
+     match abins with [] => [] | _ => gc_rows abins (if do_gc then agc else None) None end) /\
+  snd (fst (pool_gc None do_gc do_rmask tbins abins tgc agc)) = false.
+Proof. exact pool_gc_nofasta. Qed.
 
 (* ---- the hypotheses are satisfiable: a cohort of two females and a male, depths 0 / +1 / -1/2 --------- *)
 Definition ex_bins (d : Q) (male : bool) : list bin :=
@@ -249,3 +341,28 @@ Example C05_example_cancelling_column :
   let col := [0; -1; 1] in
   Qred (ref_biloc col) = 0 /\ Qred (ref_bivar_sq col (ref_biloc col)) = 245760000 # 350475841.
 Proof. vm_compute. split; reflexivity. Qed.
+
+(* ---- source ties (DESIGN 9.4): bodies translated from cnvlib/reference.py / cnary.py on every run -------------- *)
+(* shift_sex_chroms per bin: add the flat pseudo-sample; female (sexes.get true): Y := -1; otherwise X and Y += 1 *)
+Theorem C05_source_shift_sex : forall is_xx fl xm ym v,
+  shift_one is_xx (fl, xm, ym) v == fn_shift_sex v is_xx fl xm ym.
+Proof. exact fn_shift_sex_eq. Qed.
+
+(* a whole sample row of all_logr (corrections off): centre, then every bin through the translated shift, started
+   from the translated expect_flat_log2 and the X / Y masks of the block's first file *)
+Theorem C05_source_shift_sex_row : forall hap build first sexes skip_low s,
+  eqQ (sample_logr build sexes skip_low (sex_rows hap build first) s)
+      (map (fun p => fn_shift_sex (b_log2 (snd p)) (sample_is_xx sexes (s_id s))
+                       (fn_expect_flat 0 hap (chr_x_filter first build (fst p)) (chr_y_filter first build (fst p))
+                                       (chr_y_filter first None (fst p)))
+                       (chr_x_filter first build (fst p)) (chr_y_filter first build (fst p)))
+           (combine first (center_all median true skip_low build (s_bins s)))).
+Proof. exact fn_shift_sex_row. Qed.
+
+(* calculate_gc_lo: both fractions from the eight letter counts, (0, 0) when no unambiguous base *)
+Theorem C05_source_gc_lo : forall s,
+  let p := gc_lo s in
+  let q := fn_calculate_gc_lo (count_char "a" s) (count_char "t" s) (count_char "A" s) (count_char "T" s)
+                              (count_char "g" s) (count_char "c" s) (count_char "G" s) (count_char "C" s) in
+  fst p == fst q /\ snd p == snd q.
+Proof. exact fn_gc_lo_eq. Qed.
